@@ -10,9 +10,11 @@ import (
 	"encoding/json"
 	"fmt"
 	"os"
+	"runtime"
 	"sort"
 	"strings"
 	"sync"
+	"sync/atomic"
 	"testing"
 	"time"
 
@@ -103,6 +105,9 @@ type c18Spec struct {
 	Stream   string   `json:"stream"`
 	Seed     uint64   `json:"seed"`
 	Features []string `json:"features"`
+	// Conc > 0: the first Conc operations (all Subscribe of one resource) are
+	// issued by Conc goroutines released together
+	Conc int `json:"conc,omitempty"`
 }
 
 func (s c18Spec) hasOwn() bool {
@@ -534,16 +539,23 @@ func (rn *c18Runner) cleanup() {
 }
 
 type c18Result struct {
-	spec  c18Spec
-	steps []c18Step
+	spec   c18Spec
+	steps  []c18Step
+	goErrs []string
 }
 
 func c18Run(spec c18Spec) c18Result {
 	w := newC18World(spec.NRes)
 	rn := &c18Runner{w: w, rec: &c18Rec{}, ownLive: map[[2]int]bool{}}
 	defer rn.cleanup()
+	var goErrs []string
+	if spec.Conc > 0 {
+		goErrs = rn.concurrentSubscribe(spec.Conc, spec.Ops[0].R)
+	}
 	for i, op := range spec.Ops {
-		rn.do(i, op)
+		if i >= spec.Conc {
+			rn.do(i, op)
+		}
 	}
 	for i := range rn.steps {
 		for _, d := range rn.steps[i].dels {
@@ -552,7 +564,110 @@ func c18Run(spec c18Spec) c18Result {
 			}
 		}
 	}
-	return c18Result{spec: spec, steps: rn.steps}
+	return c18Result{spec: spec, steps: rn.steps, goErrs: goErrs}
+}
+
+// concurrentSubscribe: k goroutines, released together, call
+// factory.Resource for the same resource on a factory that has no informer for
+// it yet. All k calls are reported as k Subscribe steps that share the
+// observation taken after they all returned and synced (the subscriptions are
+// interchangeable, so the order in which they get their ids does not matter).
+func (rn *c18Runner) concurrentSubscribe(k, r int) []string {
+	w := rn.w
+	res := c18Resources[r]
+	ris := make([]*ResourceInformer, k)
+	errs := make([]error, k)
+	// spin barrier: the calls start within nanoseconds of each other (a channel
+	// close wakes the goroutines one scheduler hand-off at a time)
+	var arrived int32
+	yield := k > runtime.GOMAXPROCS(0)
+	var done sync.WaitGroup
+	for g := 0; g < k; g++ {
+		done.Add(1)
+		go func(g int) {
+			defer done.Done()
+			atomic.AddInt32(&arrived, 1)
+			for atomic.LoadInt32(&arrived) < int32(k) {
+				if yield {
+					runtime.Gosched()
+				}
+			}
+			ris[g], errs[g] = w.factory.Resource(res.APIVersion(), res.Resource)
+		}(g)
+	}
+	done.Wait()
+	var issues []string
+	for g := 0; g < k; g++ {
+		if errs[g] != nil {
+			panic(fmt.Sprintf("c18: Resource(): %v", errs[g]))
+		}
+		rn.subs = append(rn.subs, ris[g])
+		rn.subRes = append(rn.subRes, r)
+		// every subscription's own informer (there should be one for all)
+		if !c18Until(5*time.Second, ris[g].Informer().HasSynced) {
+			issues = append(issues, "never-synced")
+		}
+	}
+	if !c18Until(2*time.Second, func() bool { return w.watchCount(r) > 0 }) {
+		issues = append(issues, "watch-never-opened")
+	}
+	// a second informer, if one was started, opens its watch now
+	last, since := w.watchCount(r), time.Now()
+	for time.Since(since) < 3*time.Millisecond {
+		time.Sleep(200 * time.Microsecond)
+		if n := w.watchCount(r); n != last {
+			last, since = n, time.Now()
+		}
+	}
+	if sri := w.curSRI(r); sri != nil {
+		if !w.barrier(r, sri) {
+			issues = append(issues, "barrier-timeout")
+		}
+	}
+	var watch, lists []int
+	for x := 0; x < w.nres; x++ {
+		watch = append(watch, w.watchCount(x))
+		lists = append(lists, w.listCount(x))
+	}
+	for g := 0; g < k; g++ {
+		st := c18Step{op: c18Op{Kind: "sub", R: r}, watch: watch, lists: lists}
+		if g == k-1 {
+			st.issues = issues
+			st.dels = rn.rec.take()
+		}
+		rn.steps = append(rn.steps, st)
+	}
+	// the reference count is not part of the case format: assert it here, but only
+	// when the server-side observations (which the Coq check judges) look right
+	w.factory.mutex.Lock()
+	ref := w.factory.refCount[w.key(r)]
+	w.factory.mutex.Unlock()
+	if ref != k && lists[r] == 1 && watch[r] == 1 {
+		return []string{fmt.Sprintf("%d concurrent Resource() calls for %s: one informer was started but refCount is %d, want %d", k, w.key(r), ref, k)}
+	}
+	return nil
+}
+
+// one round of the concurrent leg: k concurrent subscribes, then the survivor
+// must keep working while the others close, and the last close stops the watch
+func c18ConcurrentSpec(round, k int, full bool) c18Spec {
+	r := round % 2
+	ops := make([]c18Op, 0, 2*k+3)
+	for g := 0; g < k; g++ {
+		ops = append(ops, c18Op{Kind: "sub", R: r})
+	}
+	if !full {
+		// short round: only the concurrent subscribes (one LIST, one WATCH)
+		return c18Spec{NRes: 2, Ops: ops, Stream: "concurrent-subscribe-short", Conc: k,
+			Features: []string{"concurrent-subscribe", "shared-informer"}}
+	}
+	ops = append(ops, c18Op{Kind: "add", S: k - 1, H: 0})
+	for g := 0; g < k-1; g++ {
+		ops = append(ops, c18Op{Kind: "close", S: g})
+	}
+	ops = append(ops, c18Op{Kind: "ev", R: r, EK: "ADDED", O: round % 3}, c18Op{Kind: "close", S: k - 1})
+	return c18Spec{NRes: 2, Ops: ops, Stream: "concurrent-subscribe", Conc: k,
+		Features: []string{"concurrent-subscribe", "shared-informer"}}
 }
 
 // ---- Coq terms ----
@@ -964,6 +1079,9 @@ func TestVerif_C18(t *testing.T) {
 		t.Fatal(err)
 	}
 	vh.Cur = nil // the case terms carry no strings
+	if runtime.GOMAXPROCS(0) < 4 {
+		defer runtime.GOMAXPROCS(runtime.GOMAXPROCS(4))
+	}
 	adv := os.Getenv("VERIF_ADV") == "1"
 
 	var specs []c18Spec
@@ -1015,6 +1133,20 @@ func TestVerif_C18(t *testing.T) {
 				})
 			}
 		}
+		// concurrent leg (both tiers, no race detector needed): rounds of 8
+		// goroutines subscribing at once to a resource nobody holds yet
+		// (30 full rounds: subscribe, close all but one, event, close; 300 short
+		// rounds with only the subscribes, 4-12 goroutines)
+		rounds := 30
+		if env.Tier == "thorough" {
+			rounds = 200
+		}
+		for i := 0; i < rounds; i++ {
+			push(fmt.Sprintf("p%d", i), c18ConcurrentSpec(i, 8, true))
+		}
+		for i := 0; i < 10*rounds; i++ {
+			push(fmt.Sprintf("ps%d", i), c18ConcurrentSpec(i, 4+i%9, false))
+		}
 		// sampled part: the bigger spaces
 		n := env.N
 		if n == 0 {
@@ -1057,12 +1189,23 @@ func TestVerif_C18(t *testing.T) {
 		}()
 	}
 	for i := range specs {
-		next <- i
+		if specs[i].Conc == 0 {
+			next <- i
+		}
 	}
 	close(next)
 	wg.Wait()
+	// the concurrent rounds run alone, so that their goroutines really run at once
+	for i := range specs {
+		if specs[i].Conc > 0 {
+			results[i] = c18Run(specs[i])
+		}
+	}
 	for i := range specs {
 		c18Emit(t, w, ids[i], results[i])
+		for _, e := range results[i].goErrs {
+			t.Errorf("C18 case %s: %s", ids[i], e)
+		}
 	}
 	if err := w.Close(map[string]interface{}{"workers": workers}); err != nil {
 		t.Fatal(err)
